@@ -190,7 +190,7 @@ def run(prog, rep):
         name = c.get("callee")
         if name in IO_NATIVES or name == "connect":
             err = EAGAIN if name != "connect" else EINPROGRESS
-            res = run_scenario(fn, b, i, c, -1, err, extra_facts=[("socket->blocking", "==", 0)], watch=[WAIT], excuse_other_calls=False)
+            res = run_scenario(fn, b, i, c, -1, err, extra_facts=[("%s->blocking" % fn.param_names()[0], "==", 0)], watch=[WAIT], excuse_other_calls=False)
             bad = res["retried"] > 0 or WAIT in res["reached"]
             n3 += 1
             rep.ob("C10.3", fn, site + ":nonblocking", not bad,
@@ -201,7 +201,7 @@ def run(prog, rep):
     for (fn, b, i, c, site) in io_sites(u):
         name = c.get("callee")
         if name in IO_NATIVES:
-            res = run_scenario(fn, b, i, c, -1, EAGAIN, extra_facts=[("socket->blocking", "!=", 0)], watch=[WAIT])
+            res = run_scenario(fn, b, i, c, -1, EAGAIN, extra_facts=[("%s->blocking" % fn.param_names()[0], "!=", 0)], watch=[WAIT])
             okb = not res["escapes"] and res["retried"] > 0 and WAIT in res["reached"]
             e = res["escapes"][0] if res["escapes"] else None
             rep.ob("C10.3", fn, site + ":blocking", okb,
@@ -370,7 +370,27 @@ def run(prog, rep):
     Flow(sb, [guards.EMPTY], on_stmt3, lambda st, b, to, on: guards.edge_assume(st, b, on)).run()
     rep.ob("C10.5", sb, "backlog:listening", not bad, "the backlog is changed only while not listening" if not bad else
            "line %d: the backlog is changed while the socket may be listening" % bad[0], sb.loc[0])
-    rep.floor("C10.5", 7)
+    # flag fields are 1-bit bit-fields: a store keeps only the lowest bit, so every value stored into one must
+    # already be 0/1 (comparison, logical negation, !!x, a constant, another flag) - otherwise set_x (s, 2) reads back FALSE
+    rec = u.records.get("PSocket_")
+    if rec is None:
+        raise AnalysisBroken("struct PSocket_ not found")
+    bitfields = {f["name"]: f["bw"] for f in rec.fields if f.get("bw")}
+    nbf = 0
+    for fn in sorted(u.functions.values(), key=lambda f: f.loc[0]):
+        for b, i, n in fn.nodes():
+            if n["k"] != "asg":
+                continue
+            l = strip_casts(n["l"])
+            if l is None or l["k"] != "member" or l.get("rec") != "PSocket_" or l["field"] not in bitfields:
+                continue
+            nbf += 1
+            okn = boolean_valued(n["r"], fn, bitfields) and n["op"] == "="
+            rep.ob("C10.5", fn, "flag:%s@%s" % (l["field"], fn.name), okn,
+                   "%s (1-bit flag) receives a 0/1 value" % l["field"] if okn else
+                   "line %d: %s is a %d-bit bit-field but receives %s, which is not normalised to 0/1: only the lowest bit survives, so a true value such as 2 "
+                   "is stored as FALSE and the getter (and the blocking/closed logic) disagrees with the call" % (line(n), l["field"], bitfields[l["field"]], show(n["r"])), n)
+    rep.floor("C10.5", 7 + 8)
 
     # ---- C10.6 close-on-exec -----------------------------------------------
     for fname, creator, typearg in (("p_socket_new", "socket", 1), ("p_socket_accept", "accept", None)):
@@ -432,6 +452,29 @@ def run(prog, rep):
     rep.floor("C10.6", 2)
 
 
+def boolean_valued(e, fn, bitfields):
+    """Is the expression certainly 0 or 1?"""
+    while e is not None and e["k"] == "cast":     # peel casts only: strip_casts would also fold `!!x` into x
+        e = e["e"]
+    if e is None:
+        return False
+    v = cv(e)
+    if v is not None:
+        return v in (0, 1)
+    k = e["k"]
+    if k == "un" and e["op"] == "!":
+        return True
+    if k == "bin" and e["op"] in ("==", "!=", "<", ">", "<=", ">=", "&&", "||"):
+        return True
+    if k == "member" and e["field"] in bitfields and bitfields[e["field"]] == 1:
+        return True
+    if k == "cond":
+        return boolean_valued(e["a"], fn, bitfields) and boolean_valued(e["b"], fn, bitfields)
+    if k == "call" and e.get("callee") == "__builtin_expect":
+        return boolean_valued(e["args"][0], fn, bitfields)
+    return False
+
+
 def setter_clamps(u):
     sf = u.fn("p_socket_set_timeout")
     for b, i, n in sf.nodes():
@@ -462,6 +505,9 @@ def controlling_conditions(fn, bid):
     return out
 
 
+# generic robustness battery: renaming every local/parameter in these files must not change any verdict
+RENAME_LOCALS = ['src/psocket.c']
+
 SELFTEST = [
     dict(id="send-no-closed-check", file="src/psocket.c", expect="C10.1",
          old="\t\treturn -1;\n\t}\n\n\tif (P_UNLIKELY (pp_socket_check (socket, error) == FALSE))\n\t\treturn -1;\n\n\tfor (;;) {\n\t\tif (socket->blocking &&\n\t\t    p_socket_io_condition_wait (socket,\n\t\t\t\t\t\tP_SOCKET_IO_CONDITION_POLLOUT,",
@@ -490,6 +536,10 @@ SELFTEST = [
          old="\ttimeout = socket->timeout > 0 ? socket->timeout : -1;", new="\ttimeout = socket->timeout != 0 ? socket->timeout : -1;"),
     dict(id="getter-wrong-field", file="src/psocket.c", expect="C10.5",
          old="\treturn socket->listen_backlog;", new="\treturn socket->timeout;"),
+    dict(id="set-blocking-unnormalised", file="src/psocket.c", expect="C10.5",
+         old="\tsocket->blocking = !! blocking;", new="\tsocket->blocking = (puint) blocking;"),
+    dict(id="set-keepalive-unnormalised", file="src/psocket.c", expect="C10.5",
+         old="\tsocket->keepalive = !! (pint) keepalive;", new="\tsocket->keepalive = (puint) keepalive;"),
     dict(id="backlog-while-listening", file="src/psocket.c", expect="C10.5",
          old="\tif (P_UNLIKELY (socket == NULL || socket->listening))\n\t\treturn;", new="\tif (P_UNLIKELY (socket == NULL))\n\t\treturn;"),
     dict(id="accept-no-cloexec", file="src/psocket.c", expect="C10.6",
